@@ -731,9 +731,7 @@ func (g *CGen) doReturn(val string, line int) {
 func (g *CGen) finishReturns() {
 	for i, r := range g.returns {
 		g.curPC, g.cur, g.line = r.pc, r.st, r.line
-		if !g.spec.DeadReturns[i+1] {
-			g.obls = append(g.obls, &Obl{Name: fmt.Sprintf("%s:canary:return%d", g.key, i+1), Kind: "canary", Func: g.key, Prefix: len(g.cmds), Goal: sNot(r.pc), Canary: true, Pos: g.cpos()})
-		}
+		g.obls = append(g.obls, &Obl{Name: fmt.Sprintf("%s:canary:return%d", g.key, i+1), Kind: "canary", Func: g.key, Prefix: len(g.cmds), Goal: sNot(r.pc), Canary: true, ExpectDead: g.spec.DeadReturns[i+1], Pos: g.cpos()})
 		env := &SpecEnv{g: g.Gen, vars: map[string]SVal{}, st: r.st, old: g.entry, alloc0: "alloc@0", cOwn: true}
 		for k, v := range g.specEnv.vars {
 			env.vars[k] = v
